@@ -137,6 +137,41 @@ MUTANTS = [
 ]
 
 
+# Property-PRESERVING edits: refactorings after which every property still holds.  None of them may be reported.
+PRESERVING = [
+    ("C06", "P-shape-lookup-returns-sorted-ids", L,
+     "                res.append(self._get_lanelet_id_by_shapely_polygon(lanelet_shapely_polygon))\n        return res\n",
+     "                res.append(self._get_lanelet_id_by_shapely_polygon(lanelet_shapely_polygon))\n        return sorted(res, reverse=True)\n", 1200),
+    ("C07", "P-shape-lookup-returns-sorted-ids", L,
+     "                res.append(self._get_lanelet_id_by_shapely_polygon(lanelet_shapely_polygon))\n        return res\n",
+     "                res.append(self._get_lanelet_id_by_shapely_polygon(lanelet_shapely_polygon))\n        return sorted(res, reverse=True)\n", 3000),
+    ("C09", "P-generate-skips-numbers", S,
+     "        self._id_counter += 1\n        return self._id_counter\n",
+     "        self._id_counter += 3\n        return self._id_counter\n", 4000),
+    ("C09", "P-other-error-message", S,
+     "            raise ValueError(\"ID %s is already used.\" % object_id)\n        self._id_set.add(object_id)\n",
+     "            raise ValueError(\"object id %s is taken\" % object_id)\n        self._id_set.add(object_id)\n", 4000),
+    ("C11", "P-occupancies-never-cached", P,
+     "    @functools.cached_property\n    def occupancy_set(self)", "    @property\n    def occupancy_set(self)", 1600),
+    ("C18", "P-occupancies-never-cached", P,
+     "    @functools.cached_property\n    def occupancy_set(self)", "    @property\n    def occupancy_set(self)", 640),
+    ("C11", "P-cycle-memo-recomputed-every-time", TL,
+     "        if not hasattr(self, \"_cycle_init_timesteps\"):\n", "        if True:\n", 1600),
+    ("C10", "P-cleanup-keeps-list-order", L,
+     "            la._predecessor = list(set(la.predecessor).intersection(existing_ids))\n",
+     "            la._predecessor = [x for x in dict.fromkeys(la.predecessor) if x in existing_ids]\n", 6000),
+    ("C15", "P-xml-not-pretty-printed", WX,
+     "        if check_validity:\n            # validate xml format\n            self.check_validity_of_commonroad_file(self._dump())\n\n        tree = etree.ElementTree(self._root_node)\n        tree.write(filename, pretty_print=True,",
+     "        if check_validity:\n            # validate xml format\n            self.check_validity_of_commonroad_file(self._dump())\n\n        tree = etree.ElementTree(self._root_node)\n        tree.write(filename, pretty_print=False,", 800),
+    ("C09", "P-lanelet-id-freed-before-network-removal", S,
+     "            self.lanelet_network.remove_lanelet(la.lanelet_id)\n            self._id_set.remove(la.lanelet_id)\n",
+     "            self._id_set.remove(la.lanelet_id)\n            self.lanelet_network.remove_lanelet(la.lanelet_id)\n", 4000),
+    ("C07", "P-static-registry-is-rebuilt-set", S,
+     "                self.lanelet_network.find_lanelet_by_id(l_id).static_obstacles_on_lanelet.discard(obstacle_id)\n",
+     "                la_ = self.lanelet_network.find_lanelet_by_id(l_id)\n                la_.static_obstacles_on_lanelet = {o for o in la_.static_obstacles_on_lanelet if o != obstacle_id}\n", 3000),
+]
+
+
 def sh(cmd, **kw):
     return subprocess.run(cmd, stdout=subprocess.PIPE, stderr=subprocess.STDOUT, text=True, **kw)
 
@@ -148,7 +183,8 @@ def main():
     ap.add_argument("--runs-scale", type=float, default=1.0)
     a = ap.parse_args()
     results = []
-    for i, (prop, name, path, old, new, runs) in enumerate(MUTANTS):
+    todo = [m + (True,) for m in MUTANTS] + [m + (False,) for m in PRESERVING]
+    for i, (prop, name, path, old, new, runs, breaking) in enumerate(todo):
         if a.only and a.only not in (prop, name):
             continue
         wt = f"/dev/shm/cr-mut-{os.getpid()}-{i}"
@@ -167,7 +203,7 @@ def main():
             p = sh([os.path.join(VERIF, "check"), prop, "--runs", str(int(runs * a.runs_scale)), "--no-evidence"], env=env)
             sigs = [ln.split("signature:")[1].strip() for ln in p.stdout.splitlines() if "signature:" in ln]
             mins = [ln.strip() for ln in p.stdout.splitlines() if "minimised:" in ln]
-            r = {"property": prop, "mutant": name, "file": path, "exit": p.returncode,
+            r = {"property": prop, "mutant": name, "file": path, "exit": p.returncode, "breaking": breaking,
                  "caught": p.returncode == 1, "signatures": sigs[:4], "minimised": mins[:1],
                  "runs": int(runs * a.runs_scale), "wall_s": round(time.time() - t0, 1)}
             if a.tests:
@@ -183,10 +219,15 @@ def main():
     if not a.only:
         with open(out, "w") as fh:
             json.dump(results, fh, indent=1)
-    missed = [r for r in results if r.get("caught") is False]
-    print(f"{len(results)} mutants, {sum(1 for r in results if r.get('caught'))} caught, {len(missed)} missed")
+    missed = [r for r in results if r.get("breaking") and r.get("caught") is False]
+    false_alarms = [r for r in results if r.get("breaking") is False and r.get("exit") != 0]
+    nb = sum(1 for r in results if r.get("breaking"))
+    print(f"{nb} breaking mutants, {sum(1 for r in results if r.get('breaking') and r.get('caught'))} caught, "
+          f"{len(missed)} missed; {len(results) - nb} preserving edits, {len(false_alarms)} false alarms")
     for r in missed:
         print("MISSED", r["property"], r["mutant"])
+    for r in false_alarms:
+        print("FALSE-ALARM", r["property"], r["mutant"], r.get("signatures"))
     return 0
 
 
